@@ -239,7 +239,8 @@ def check(chk: Check) -> None:
         fi = F.func(q)
         selft, stt = ('param', om.self_param(F, q)), ('param', om.state_param(F, q))
         seen = {}
-        plists = [om.eval_paths(F, cls)]
+        specs = om.op_specs(F, cls)
+        plists = [om.eval_paths(F, cls, op) for op in specs] if specs else [om.eval_paths(F, cls)]
         for owner, c, p in common.eval_closures(chk):
             if owner == q:
                 plists.append(closure_paths(F, fi, c))
@@ -325,7 +326,7 @@ def check(chk: Check) -> None:
         ks = Kinds(F, set(), selft, stt, in_eval=True)
         bad = {}
         kinds = om.op_field_kinds(F, cls)
-        strs = om.dispatch_strings(F, q) if kinds.get('op') == 'str' else []
+        strs = om.op_specs(F, cls)
         for op in (strs or [None]):
             for p in om.eval_paths(F, cls, op):
                 vals = []
